@@ -14,7 +14,7 @@ func TestValidatorAgreesWithBtcd(t *testing.T) {
 		base := rapid.IntRange(1, 120).Draw(rt, "base")
 		fut := rapid.IntRange(0, 40).Draw(rt, "future")
 		spec := WorldSpec{P: p, Seed: rapid.Uint64Range(0, 50).Draw(rt, "seed"), Base: base, Future: fut,
-			Pace: rapid.IntRange(0, 3).Draw(rt, "pace"), Tx: rapid.Bool().Draw(rt, "tx")}
+			Pace: rapid.IntRange(0, 4).Draw(rt, "pace"), Tx: rapid.Bool().Draw(rt, "tx")}
 		spec.Branches = GenBranches(rt, base+fut, base, 3, 30)
 		w := buildWorld(spec)
 		now := Epoch + 60
